@@ -114,6 +114,13 @@ def build(case):
     return records, kwargs, jc
 
 
+def _other_table():
+    """a table with break lines and skipped records, wider than the tables of the family"""
+    from ak.ppobj import PPTable
+    recs = [(i, 'group %d' % (i // 3), 'x' * 30) for i in range(30)]
+    return PPTable(recs, fmt='n:4,g!:10,t:35;2:2', fields=['n', 'g', 't'])
+
+
 def render(case):
     from ak.ppobj import PPTable
     records, kwargs, jc = build(case)
@@ -121,7 +128,20 @@ def render(case):
     if (len(records) + len(kwargs['fmt'])) % 3 == 0:
         # the same table built from a format object (another table's .fmt), as ak/mcaller_sql.py does
         t = PPTable(records, fmt_obj=t.fmt, header=kwargs['header'], footer=kwargs['footer'])
-    text = t.ch_text(no_color=True).plain_text()
+    if (len(records) + len(kwargs['fmt'])) % 3 == 1:
+        # printed side by side with another table: the two renderings are consumed in alternation
+        from ak.color import CHText
+        mine, other = iter(t.ch_text(no_color=True)), iter(_other_table().ch_text(no_color=True))
+        got = []
+        while True:
+            try:
+                got.append(next(mine))          # this table is started first
+            except StopIteration:
+                break
+            next(other, None)
+        text = '\n'.join(CHText(ln).plain_text() for ln in got)
+    else:
+        text = t.ch_text(no_color=True).plain_text()
     jc['lines'] = [cps(ln) for ln in text.split('\n')]
     return jc, kwargs['fmt'], text
 
